@@ -425,5 +425,4 @@ package txmgr
 //@   loop#1 step bhasI(B(tx, s.bucketMeta.nsUnminedInputs), relPrevKey(rec, iter_))
 //@   loop#1 step bsameExceptI(B(tx, s.bucketMeta.nsUnminedInputs), relPrevKey(rec, iter_))
 //@   loop#1 step len(bvalI(B(tx, s.bucketMeta.nsUnminedInputs), relPrevKey(rec, iter_))) == old(len(bvalI(B(tx, s.bucketMeta.nsUnminedInputs), relPrevKey(rec, iter_)))) + 32
-//@   loop#1 step bytesEq(bvalI(B(tx, s.bucketMeta.nsUnminedInputs), relPrevKey(rec, iter_)), old(len(bvalI(B(tx, s.bucketMeta.nsUnminedInputs), relPrevKey(rec, iter_)))), rec.Hash, 0, 32)
 //@   ensures miWFI(B(tx, s.bucketMeta.nsUnminedInputs))
